@@ -180,8 +180,10 @@ impl HalfConnection {
         self.rtt_ms = rtt_ms;
         self.rto_ms = rto_ms;
 
-        // Forget old frame data
-        self.frame_queue.forget_frames(now_ms.saturating_sub(rtt_ms*4), self.send_rate_comp.rtt_ms());
+        // Forget old frame data. Frames are remembered for at least one retransmission timeout: forgetting them
+        // after four round-trip *estimates* alone discards every acknowledgement once the actual round-trip time
+        // has grown beyond four times the estimate, so that the estimate (and with it the send rate) never recovers.
+        self.frame_queue.forget_frames(now_ms.saturating_sub((rtt_ms*4).max(rto_ms)), self.send_rate_comp.rtt_ms());
 
         // Fill flush allocation
         self.fill_flush_alloc(now);
